@@ -18,7 +18,10 @@ def classify(op, impl):
 
 def run_ms(ctx, kind):
     """kind: 'wait' (C05) or 'hold' (C06)"""
-    prefixes = {"wait": ["C05:"], "hold": ["C06:"], "both": ["C05:", "C06:"]}[kind]
+    prefixes = {"wait": ["C05:"], "hold": ["C06:"], "both": ["C05:", "C06:"], "wait-c03": ["C03:"]}[kind]
+    c03 = kind == "wait-c03"
+    if c03:
+        kind = "wait"
     if ctx.lake_build(["Slock.Properties.C05Ms"], exe=True):
         ctx.audit("Slock.Properties.C05Ms", MS_THEOREMS)
     exe = ctx.build_harness("server", only=MS_FILES)
@@ -35,6 +38,8 @@ def run_ms(ctx, kind):
             ctx.broken.append({"kind": "correspondence", "name": "M-MSWHEEL vs real millisecond stage (msw)",
                                "detail": f"{len(dis)} cases disagree; first: op={d[1]} impl={d[2]} model={d[3]}"})
             ctx.cov.setdefault("disagreements", []).append({"op": d[1], "impl": d[2], "model": d[3]})
+    if c03:
+        return
     outdir = ctx.run_harness(exe, "msreal", 1, extra=env, timeout=600)
     if outdir:
         engine_common.read_monitor(ctx, outdir, "msreal", prefixes)
